@@ -121,7 +121,9 @@ class JsonUtil:
             else:
                 return 'false'
         elif isinstance(key, int):
-            return repr(key)
+            # Like the json module, ignore __repr__ overrides in subclasses of
+            # int, e.g. in the members of an IntEnum
+            return int.__repr__(key)
         elif isinstance(key, float):
             if key != key:
                 return 'NaN'
@@ -130,7 +132,7 @@ class JsonUtil:
             elif key == -float('inf'):
                 return '-Infinity'
             else:
-                return repr(key)
+                return float.__repr__(key)
         elif key is None:
             return 'null'
         else:
